@@ -8,7 +8,8 @@ import conc
 import driver
 
 PROPERTIES_FILE = "Properties/Properties_C17.v"
-COQ_DEPS = ["Proofs/Refcnt_proofs.vo", "Model/RefcntSites.vo"]
+COQ_DEPS = ["Proofs/Refcnt_proofs.vo", "Model/RefcntSites.vo", "Gen/Gen_lanesites.vo", "Gen/Gen_fields.vo", "Gen/Gen_refcnt.vo",
+            "Gen/Gen_group.vo"]
 GEN_MODULES = ["Gen_refcnt", "Gen_group", "Gen_lanesites"]
 LEVEL = "proof"
 COQ_TIMEOUT = 2400
@@ -170,8 +171,11 @@ def run_scripts(exe, lines, env=None):
         if k < len(lines):
             if r.returncode == 0 and not got:
                 break
-            crashes.append((k, r.returncode, (r.stderr or "")[-700:]))
+            part = [l for l in r.stdout.split("\n") if l[:1] in ("G", "L") and "|" not in l]
+            crashes.append((k, r.returncode, (r.stderr or "")[-700:] + (" || partial output: " + part[-1] if part else "")))
             k += 1
+            if len(crashes) >= 6:      # enough evidence; the remaining scripts are not evaluated
+                break
     return outs, crashes
 
 
@@ -224,12 +228,25 @@ def check_group(scripts, outs, crashes, label):
     crashed = {k for k, _, _ in crashes}
     for idx, (s, out, mo) in enumerate(zip(scripts, outs, model)):
         toks, groups = tokens(s), model_calls(s)
+        if out is None and idx not in crashed:
+            continue            # not evaluated (the run was cut short after several crashes)
         if idx in crashed or out is None:
             rc = [c for c in crashes if c[0] == idx]
+            extra = ""
+            if rc and "partial output: G" in rc[0][2]:
+                xs = [int(v) for v in rc[0][2].split("partial output: G")[1].split()]
+                st = [tuple(xs[i:i + 4]) for i in range(0, len(xs) - len(xs) % 4, 4)]
+                sim = GSim()
+                for k, (c, o) in enumerate(zip(toks, st)):
+                    if c[0] != "c" and c not in "aw":
+                        sim.apply(c)
+                    if sim.alive() and o[0] == -77:
+                        extra = ("; before that, after call #%d (%s), the group had been deallocated while the application still held %d "
+                                 "external / %d internal reference(s) and %d enter(s)" % (k, c, sim.x, sim.i, sim.e))
+                        break
             fails.append({"key": "%s:crash:%s" % (label, s), "what": "the library crashed or hung on a legal reference history of a "
                           "group (script %s: c=set_context f=set_finalizer e=enter l=leave n=notify r/R=retain/release i/I=internal "
-                          "retain/release): rc=%s %s" % (s, rc[0][1] if rc else "?", (rc[0][2] if rc else "")[-200:].replace("\n", " ")),
-                          "script": "G " + s})
+                          "retain/release): rc=%s%s" % (s, rc[0][1] if rc else "?", extra), "script": "G " + s})
             continue
         steps, fin = parse_g(out)
         sim, pos = GSim(), 0
@@ -263,6 +280,38 @@ def check_group(scripts, outs, crashes, label):
                              "detail": {"script": s, "impl": [ix, ir, inq], "model": [m[0], m[1], m[7]], "model_freed": mfreed}})
                 bad = True
                 break
+        # API-level oracle on the end of the history, judged whether or not the counts agreed and independent of the model:
+        # once everything is dropped the finalizer runs exactly once with the last context on the last target queue (when a
+        # context and a finalizer are set), never before; every notification registered before the group emptied is delivered once
+        simf, ctx, hasfin, tq = GSim(), 0, False, 0
+        for c in toks:
+            if c[0] == "c":
+                ctx = int(c[1])
+            elif c == "C":
+                ctx = 0
+            elif c in "fF":
+                hasfin = c == "f"
+            elif c in "tT":
+                tq = 5 if c == "t" else 6
+            elif c not in "aw":
+                simf.apply(c)
+            elif c == "a" and simf.e == 0:
+                simf.pend = 0
+        want = [1, ctx, tq] if (not simf.alive() and hasfin and ctx) else [0, 0, -1]
+        if not bad or not any(f["script"] == "G " + s for f in fails):
+            if fin[0] != want[0] or (fin[0] == 1 and fin[:3] != want):
+                kind = "finalized-while-held" if simf.alive() else "finalizer"
+                fails.append({"key": "%s:%s:%s" % (label, kind, s),
+                              "what": "group history %s: the finalizer ran %d time(s) (context id %d, on queue #%d); expected %s" %
+                                      (s, fin[0], fin[1], fin[2], ("exactly once with context id %d on queue #%d after the last drop" %
+                                                                  (want[1], want[2])) if want[0] else "no run (%s)" %
+                                       ("the application still holds references" if simf.alive() else "no context / finalizer set")),
+                              "script": "G " + s})
+            exp_deliv = sum(1 for c in toks if c == "n") - simf.pend
+            if fin[3] != exp_deliv:
+                fails.append({"key": "%s:notifications:%s" % (label, s), "what": "group history %s: %d notification(s) delivered, "
+                              "expected %d (every notification registered before the group emptied, exactly once)" % (s, fin[3], exp_deliv),
+                              "script": "G " + s})
         if bad:
             continue
         last = mo[-1] if mo else [0, 0, 0, 0, 0, 0, 0, 0]
@@ -271,22 +320,8 @@ def check_group(scripts, outs, crashes, label):
             if toks and toks[-1] != "R":
                 stats["dispose_by_leave_or_internal_release"] += 1
         stats["finalized"] += last[2]
-        exp_deliv = sum(1 for c in toks if c == "n") - sim.pend
-        if fin[3] != exp_deliv:
-            fails.append({"key": "%s:notifications:%s" % (label, s), "what": "group history %s: %d notification(s) delivered, expected %d "
-                          "(every notification registered before the group emptied, exactly once)" % (s, fin[3], exp_deliv),
-                          "script": "G " + s})
-        exp_fin = 1 if (not sim.alive() and "f" in s and last[2] == 1) else last[2]
-        if fin[0] != exp_fin or (fin[0] == 1 and (fin[1], fin[2]) != (last[3], last[4])):
-            what = ("the finalizer of a group ran %d time(s) (context id %d, on queue #%d); expected %d time(s)%s; history %s" %
-                    (fin[0], fin[1], fin[2], last[2], " with context id %d on queue #%d" % (last[3], last[4]) if last[2] else "", s))
-            if sim.alive() and fin[0] > 0:
-                fails.append({"key": "%s:finalized-while-held:%s" % (label, s), "what": "finalised while referenced: " + what,
-                              "script": "G " + s})
-            elif not sim.alive():
-                fails.append({"key": "%s:finalizer-count:%s" % (label, s), "what": what, "script": "G " + s})
-            else:
-                mism.append({"what": "finalizer observation differs from the model", "detail": {"script": s, "impl": fin, "model": last}})
+        if [fin[0]] + (fin[1:3] if fin[0] else [0, 0]) != [last[2]] + (last[3:5] if last[2] else [0, 0]):
+            mism.append({"what": "finalizer observation differs from the model", "detail": {"script": s, "impl": fin, "model": last}})
     return mism, fails, stats
 
 
@@ -308,15 +343,17 @@ class LObj:
 
 
 def gen_lane_scripts(rng, n):
-    corpus = ["kPKspuR", "mMXZxyR", "vVR", "xyspppuR", "kkPKPKrRxR", "mMZyxR", "ssppuuxR", "xkRPK", "ymMRXZ"]
+    corpus = ["kPKspuR", "mMXZxyR", "vVR", "xyspppuR", "kkPKPKrRxR", "mMZyxR", "ssppuuxR", "xkRPK", "ymMRXZ", "xSpuR", "SupSupxyR"]
     out = list(corpus)
     for _ in range(n):
         s, x, susp, kids, src, act, qi = "", 1, 0, 0, False, False, False
         for _k in range(rng.choice([4, 8, 14])):
-            c = rng.choice("rRsukKpPxymMXZvV")
+            c = rng.choice("rRsukKpPxymMXZvVS")
             if c == "R" and (x <= 1):
                 continue
             if c == "u" and susp == 0 or c == "K" and (kids == 0 or susp > 0) or c == "P" and (kids == 0 or susp > 0):
+                continue
+            if c == "S" and susp > 0:
                 continue
             if c == "m" and (src or qi) or c == "M" and (not src or act) or c in "XZ" and not (src and act):
                 continue
@@ -330,7 +367,7 @@ def gen_lane_scripts(rng, n):
                 continue
             s += c
             x += {"r": 1, "R": -1}.get(c, 0)
-            susp += {"s": 1, "u": -1}.get(c, 0)
+            susp += {"s": 1, "u": -1, "S": 1}.get(c, 0)
             kids += {"k": 1, "K": -1}.get(c, 0)
             if c == "m":
                 src, act = True, False
@@ -373,6 +410,8 @@ def lane_expect(scripts):
                 kids.append(LObj()); q.kids += 1
             elif c == "K":
                 kids.pop(); q.kids -= 1
+            elif c == "S":
+                items += 1; q.susp += 1
             elif c == "p":
                 if q.susp > 0:
                     pendq += 1
@@ -425,6 +464,8 @@ def check_lanes(scripts, outs, crashes, label):
     for idx, (s, out, (steps, disposed, hasfin, hasspec, items)) in enumerate(zip(scripts, outs, plans)):
         exp = [nums[pos + 4 * k: pos + 4 * k + 4] for k in range(len(steps))]
         pos += 4 * len(steps)
+        if out is None and idx not in crashed:
+            continue
         if idx in crashed or out is None:
             fails.append({"key": "%s:lane-crash:%s" % (label, s), "what": "the library crashed or hung on a legal queue / source "
                           "history (script %s)" % s, "script": "L " + s})
@@ -446,14 +487,17 @@ def check_lanes(scripts, outs, crashes, label):
                     mism.append({"what": "do_xref_cnt / do_ref_cnt of a real queue / source differ from Refcnt.lane_ref after call #%d (%s)"
                                          % (k, s[k]), "detail": {"script": s, "impl": g, "model": e}})
                 break
-        else:
-            efin = [1 if (disposed and hasfin) else 0, 1 if (disposed and hasfin) else 0, 1 if (disposed and hasfin) else 0,
-                    1 if (disposed and hasspec) else 0, items]
-            if fin != efin:
-                f = {"key": "%s:lane-final:%s" % (label, s),
-                     "what": "queue history %s: finalizer runs / context ok / ran on target queue / queue-specific destructor runs / items run = %s, "
-                             "expected %s" % (s, fin, efin), "script": "L " + s}
-                fails.append(f)
+        # API-level oracle on the end of the history (judged whether or not the counts agreed): after the last reference is
+        # dropped the finalizer runs once, on the target queue, with the context; the queue-specific destructor runs once;
+        # every submitted item ran
+        efin = [1 if (disposed and hasfin) else 0, 1 if (disposed and hasfin) else 0, 1 if (disposed and hasfin) else 0,
+                1 if (disposed and hasspec) else 0, items]
+        if fin != efin:
+            fails.append({"key": "%s:lane-final:%s" % (label, s),
+                          "what": "queue history %s (r/R retain/release, s/u suspend/resume, k/K child queue, p/P items, S item suspending "
+                                  "its own queue, x context+finalizer, y queue-specific, m/M/X/Z timer source create/arm/cancel/release): "
+                                  "finalizer runs / context ok / ran on target queue / queue-specific destructor runs / items run = %s, "
+                                  "expected %s" % (s, fin, efin), "script": "L " + s})
     return mism, fails, {"lane_scripts": len(scripts), "lane_calls": steps_total}
 
 
@@ -480,7 +524,8 @@ def analyse_stress(text, label, rc, err):
             rd, n, fr, cok, reg, dl = [int(v) for v in f[1:7]]
             if fr != 1 or cok != 1:
                 fails.append({"key": "%s:round%d:finalizer" % (label, rd), "what": "stress round %d (%d threads racing the last "
-                              "release): the group's finalizer ran %d time(s)%s" % (rd, n, fr, "" if cok else " with a wrong context"),
+                              "release): the group's finalizer ran %d time(s)%s, expected exactly once after the last drop" %
+                              (rd, n, fr, "" if (cok or fr == 0) else " with a wrong context"),
                               "label": label})
             if reg != dl:
                 fails.append({"key": "%s:round%d:notifications" % (label, rd), "what": "stress round %d: %d notifications registered, "
@@ -526,12 +571,14 @@ def correspond(ctx):
     fails += f1 + f2
     # (b) stress with recorded refcount events: per-thread trace conformance + API oracle
     alltr, total = [], {}
-    nseeds, rounds = (3, 25) if quick else (10, 120)
+    nseeds, rounds = (3, 25) if quick else (6, 80)
     for i in range(nseeds):
         seed = ctx.seed * 1000 + i
         permille = [0, 150, 400][i % 3]
         r = run_stress(exe, seed, rounds, permille)
         f, tr, st = analyse_stress(r.stdout, "seed%d" % seed, r.returncode, r.stderr)
+        for x in f:
+            x["permille"] = permille
         fails += f
         alltr += [(thr, t, seed) for thr, t in tr]
         for k, v in st.items():
@@ -642,7 +689,7 @@ def replay(ctx, obj):
                     print("  model evaluation failed:", e)
         elif f.get("label", "").startswith("seed"):
             seed = int(f["label"].replace("seed", ""))
-            r = run_stress(exe, seed, 25, [0, 150, 400][seed % 3])
+            r = run_stress(exe, seed, 25, f.get("permille", 150))
             f2, _, _ = analyse_stress(r.stdout, f["label"], r.returncode, r.stderr)
             print("  re-run of stress seed %d: %d failures" % (seed, len(f2)))
             for x in f2[:5]:
